@@ -187,6 +187,8 @@ theorem sids_fresh_later {s : Srv} (h : Server.WF s) (i : Input) (is : List Inpu
   have := sidName_inj heq
   omega
 
+example : (step dec0 cfg0 demo0 (.frame tB (.str ['c']))).1.nextSid = demo0.nextSid + 1 := by decide
+
 /-! ### `disconnect_once` -/
 
 /-- Over any history of the property's domain (`Dom`: no handler is run for a client event that
@@ -280,6 +282,11 @@ theorem disconnect_after_end {s : Srv} (h : Server.WF s) {sid : Sid} (hl : ¬ si
     (ns : Ns) : step dec cfg s (.apiDisconnect sid ns) = (s, []) := by
   rw [step]; unfold apiDisconnect
   rw [(not_connected_of_not_live h hl ns).1]; rfl
+
+example : ¬ sidLive (step dec0 cfg0 demo0 (.frame tA (.str ['d']))).1.rooms (sidName 0) := by
+  rintro ⟨ns, e, he⟩
+  have : (step dec0 cfg0 demo0 (.frame tA (.str ['d']))).1.rooms = [] := by decide
+  rw [this] at he; cases he
 
 /-! ### `after_end` -/
 
